@@ -408,6 +408,18 @@ def r6_policy(chk, prog):
                       'the setter passes FilterTypes::%s: a second %s filter is not recognised as a duplicate and an '
                       'unrelated %s filter is treated as one' % (tag, own_tag[cls[0]], tag))
     chk.require(m >= 4, 'filter setters found: %d' % m)
+    # ... on EVERY call: the duplicate policy decides what a second setting does, whatever its value - a setter that
+    # returns early for some value (a filter that 'would accept everything anyway') neither replaces the filter that
+    # is already there nor is refused / ignored as the policy demands
+    for f in prog.functions:
+        if f.classq != 'celma::log::filter::Filters' or f.body is None:
+            continue
+        cs = [c for c in f.calls() if callee_is(c, 'Filters::checkSetFilter')]
+        if not cs:
+            continue
+        off = f.cfg.must_pass_through(lambda n_: any(n_ is c for c in cs))
+        chk.check(not off, 'R6', f.name, 'every setting of a filter goes through the duplicate policy (no shortcut '
+                  'that depends on the value)', f.loc(), 'a normal return is reachable without checkSetFilter()')
 
 
 def r7_policy_identity(chk, prog):
